@@ -661,7 +661,10 @@ func verifHarness_C09_step() {
 	verifAssume(c == 0 || plen < B)
 	e.count = c
 	e.approxBlockSize = B
-	e.wb = NewWriteBuf(append([]byte(nil), P...))
+	// the buffer's capacity is whatever earlier records left it at
+	buf := make([]byte, plen, []int{plen, 600, 5000}[verifChoice("bufcap", 3)])
+	copy(buf, P)
+	e.wb = NewWriteBuf(buf)
 	if verifChoice("op", 2) == 0 {
 		var v verifRec
 		verifFillRec(&v, "v")
@@ -918,6 +921,7 @@ type verifRec10 struct {
 // recycled, a retained record still holds what was decoded.
 func verifHarness_C10_retained_records() {
 	verifAllocMax(4096)
+	verifUnwind(600)
 	comp := verifCompression(verifChoice("codec", 3))
 	s, err := SchemaForType(verifRec10{})
 	verifAssume(err == nil)
@@ -931,8 +935,9 @@ func verifHarness_C10_retained_records() {
 	for bi := 0; bi < 3; bi++ {
 		v := &want[bi]
 		tag := "r" + string(rune('0'+bi))
-		// shapes are fixed (every field non-empty); contents are symbolic
-		v.S = verifString(tag+".S", 2)
+		// shapes are fixed (every field non-empty); contents are symbolic; the
+		// string is short or longer than 128 bytes (two-byte length prefix)
+		v.S = verifString(tag+".S", []int{2, 130}[verifChoice(tag+".S.len", 2)])
 		v.B = verifBytes(tag+".B", 2)
 		v.P = new(int64)
 		*v.P = int64(verifNondetU8(tag + ".P"))
